@@ -6,6 +6,9 @@ EXTENDS ValueEq, Json, IOUtils, TLCExt
 Rec == ndJsonDeserialize(IOEnv.TRACE)
 VARIABLE l
 Init == l = 1
+\* the five value-tuple forms were observed for partner j (keeps the validator total on incomplete records)
+VtxShape(r, j) == j \in DOMAIN r.vtx_eq /\ j \in DOMAIN r.vtx_hash /\ j \in DOMAIN r.vtx_set
+                  /\ Len(r.vtx_eq[j]) = 5 /\ Len(r.vtx_hash[j]) = 5 /\ Len(r.vtx_set[j]) = 5
 RowKeys(r) ==
   LET names == r.names
       n == r.name
@@ -18,9 +21,10 @@ RowKeys(r) ==
              \cup (IF r.vt_eq[j] = r.eq[j] THEN {} ELSE {"C18/value_tuple_equality_disagrees:" \o VariantOfName(n)})
              \* value tuples (same content as One/Two/Three and as Many): whatever == says, hashing and set membership agree with it;
              \* tuples of the same representation are equal exactly when the values are
-             \cup (IF \A f \in DOMAIN r.vtx_eq[j] : r.vtx_eq[j][f] => r.vtx_hash[j][f] THEN {} ELSE {"C18/equal_value_tuples_hash_differently:" \o VariantOfName(n)})
-             \cup (IF \A f \in DOMAIN r.vtx_eq[j] : r.vtx_set[j][f] = r.vtx_eq[j][f] THEN {} ELSE {"C18/value_tuple_hashset_membership_disagrees:" \o VariantOfName(n)})
-             \cup (IF r.vtx_eq[j][1] = r.eq[j] /\ r.vtx_eq[j][5] = r.eq[j] THEN {} ELSE {"C18/value_tuple_equality_disagrees:" \o VariantOfName(n)})
+             \cup (IF ~VtxShape(r, j) THEN {"C18/value_tuple_observation_incomplete"}
+                   ELSE (IF \A f \in 1..5 : r.vtx_eq[j][f] => r.vtx_hash[j][f] THEN {} ELSE {"C18/equal_value_tuples_hash_differently:" \o VariantOfName(n)})
+                        \cup (IF \A f \in 1..5 : r.vtx_set[j][f] = r.vtx_eq[j][f] THEN {} ELSE {"C18/value_tuple_hashset_membership_disagrees:" \o VariantOfName(n)})
+                        \cup (IF r.vtx_eq[j][1] = r.eq[j] /\ r.vtx_eq[j][5] = r.eq[j] THEN {} ELSE {"C18/value_tuple_equality_disagrees:" \o VariantOfName(n)}))
              : j \in DOMAIN names }
      \cup (IF r.eq[r.i + 1] /\ r.clone_eq THEN {} ELSE {"C18/not_reflexive:" \o VariantOfName(n)})
 MatrixKeys(r) ==
